@@ -45,7 +45,7 @@ V6_DELETES = ["V6_api.delete_func.*", "V6_api.fn:Module::delete_func", "V6_api.F
 
 V8_BASE = ["V8_lower.fn:lemma_*", "V8_lower.fn:FunctionModifier as *", "V8_lower.fn:Instrumenter::*", "V8_lower.fn:Inject::inject", "V8_lower.fn:Opcode::*",
            "V8_lower.fn:InstrumentationFlag::*", "V8_lower.fn:Instruction::add_instr", "V8_lower.fn:FuncInstrFlag::add_instr", "V8_lower.fn:v_inject_all"]
-LOWER_GLUE = ["Module::resolve_special_instrumentation: the per-function driver (block stack, which helper runs at which instruction, delete_block / retain_end bookkeeping, resolve_on_end maps) is not under contract",
+LOWER_GLUE = ["Module::resolve_special_instrumentation: the per-function driver (block stack, which helper runs at which instruction, delete_block / retain_end bookkeeping, resolve_on_end maps) is not under contract, EXCEPT (i) the preparation of entry / exit code before the loop and (ii) ONE ITERATION of the loop (rule R19) for the case `the instruction lies inside a construct that a block-alternate removes`: it is removed, nothing else is planned on it, no entry / exit code is spent, the nesting stack is tracked",
               "the save_* helpers use HashMap::entry().and_modify(closure): outside Verus (assumed where a contract of C19 / C20 needs them)",
               "the final emission of before / alternate / after lists in encode_internal",
               "'fires once when ...' is an execution-trace property: neither verifier has a WebAssembly semantics; what is proved is WHERE each helper places WHICH code (placement contracts written from the property text)",
@@ -264,7 +264,7 @@ PROPS = {
     "C17": {
         "title": "Function entry/exit probes fire once per call on every normal path",
         "units": ["V8_lower"],
-        "obligations": V8_BASE + ["V8_lower.resolve_function_entry.*", "V8_lower.fn:resolve_function_entry", "V8_lower.resolve_function_exit.*", "V8_lower.fn:resolve_function_exit",
+        "obligations": V8_BASE + ["V8_lower.lower_one_instruction.*", "V8_lower.fn:Module::lower_one_instruction", "V8_lower.fn:InstrumentationFlag::has_instr", "V8_lower.resolve_function_entry.*", "V8_lower.fn:resolve_function_entry", "V8_lower.resolve_function_exit.*", "V8_lower.fn:resolve_function_exit",
                                   "V8_lower.exit_wrapper.*", "V8_lower.fn:resolve_function_exit_with_block_wrapper", "V8_lower.prepare_function_exit.*", "V8_lower.fn:Module::prepare_function_exit", "V8_lower.fn:Functions::get_type_id", "V8_lower.fn:Types::results"],
         "glue": LOWER_GLUE + ["the preparation of the entry / exit code before the instruction loop is a region of resolve_special_instrumentation (R16); ModuleTypes::get / add_func_type and Function::get_type_id are assumed there with the clauses V6 / V7 prove"],
         "design_ref": "DESIGN.md §5 C17-C20",
@@ -273,7 +273,7 @@ PROPS = {
     "C18": {
         "title": "Block entry probes fire on every entry into the block",
         "units": ["V8_lower"],
-        "obligations": V8_BASE + ["V8_lower.resolve_block_entry.*", "V8_lower.fn:resolve_block_entry"],
+        "obligations": V8_BASE + ["V8_lower.lower_one_instruction.*", "V8_lower.fn:Module::lower_one_instruction", "V8_lower.fn:InstrumentationFlag::has_instr", "V8_lower.resolve_block_entry.*", "V8_lower.fn:resolve_block_entry"],
         "glue": LOWER_GLUE, "design_ref": "DESIGN.md §5 C17-C20",
         "level_text": "Placement only: on block / loop / if / else the probe code is appended to the AFTER list of the opening instruction (= first thing inside the body or arm, re-executed on every loop iteration); on any other instruction nothing changes.",
     },
@@ -298,7 +298,7 @@ PROPS = {
     "C21": {
         "title": "Block alternate replaces exactly the selected construct",
         "units": ["V8_lower"],
-        "obligations": V8_BASE + ["V8_lower.plan_resolution_block_alt.*", "V8_lower.fn:plan_resolution_block_alt", "V8_lower.fn:Body::clear_instr"],
+        "obligations": V8_BASE + ["V8_lower.lower_one_instruction.*", "V8_lower.fn:Module::lower_one_instruction", "V8_lower.fn:InstrumentationFlag::has_instr", "V8_lower.plan_resolution_block_alt.*", "V8_lower.fn:plan_resolution_block_alt", "V8_lower.fn:Body::clear_instr"],
         "glue": LOWER_GLUE, "design_ref": "DESIGN.md §5 C21",
         "level_text": "Placement only: on block / loop / if / else the replacement becomes the ALTERNATE of the opening instruction (an empty replacement becomes an empty alternate = removal), the construct's end is kept only for `else`; other instructions untouched. Removal of the instructions in between (delete_block tracking) is driver glue.",
     },
